@@ -234,12 +234,12 @@ def gen_hh(rng, default=False):
 
 def gen_cases(rng, tier):
     cases = []
-    ngw, nwd, nhh = (300, 150, 90) if tier == "quick" else (3000, 1200, 800)
+    ngw, nwd, nhh = (240, 120, 80) if tier == "quick" else (2000, 800, 500)
     for _ in range(ngw):
         cases.append(gen_gridworld(rng))
     if tier != "quick":
         # exhaustive small layouts over the reduced alphabet . # g s
-        for (h, w) in [(1, 1), (1, 2), (2, 1), (1, 3), (3, 1), (2, 2), (2, 3), (3, 2)]:
+        for (h, w) in [(1, 1), (1, 2), (2, 1), (1, 3), (3, 1), (2, 2), (2, 3)]:
             for cells in itertools.product(".#gs", repeat=h * w):
                 rows = [list(cells[i * w:(i + 1) * w]) for i in range(h)]
                 cases.append(gen_gridworld(rng, rows=rows, simple=True))
@@ -677,7 +677,10 @@ def run(ctx):
         cases = [ctx.replay_case["detail"]["case"]]
     else:
         cases = gen_cases(ctx.rng, tier)
+    import time
+    t0 = time.time()
     impl = ctx.impl("c20_impl.py", {"cases": cases}, shards=8 if tier == "quick" else 16)["results"]
+    t_impl = time.time() - t0
 
     terms, meta = [], []
     counts = {}
@@ -709,7 +712,8 @@ def run(ctx):
                      {"clause": "a layout accepted by WindyGridWorld with its default parameters has no transition distribution: "
                                 "next_state_dist raises", "stage_error": se,
                       "repro": "from msdm.domains.gridmdp.windygridworld import WindyGridWorld; "
-                               "WindyGridWorld('@.$').next_state_dist((0,0),(1,0))  # AttributeError: 'NoneType' object has no attribute 'get'"})
+                               "list(WindyGridWorld('@.$').state_list)  # AttributeError: 'NoneType' object has no attribute 'get' "
+                               "(self.feature_rewards.get in _effect_of_features; feature_rewards defaults to None)"})
                 continue
         if "construct" in se or "state_list" in se or "rows" not in res:
             viol(case, "constructor-or-state-list-raises:" + list(se.values())[0].split(":")[0], {"stage_error": se})
@@ -760,7 +764,9 @@ def run(ctx):
             terms.append(cliff_term(case, res))
         meta.append(("mirror", i, None))
 
+    t0 = time.time()
     vals = ctx.coq(PRE, terms, shard=30 if tier == "quick" else 80)
+    t_coq = time.time() - t0
     nwf = nmir = 0
     distinct = set()
     mirror_diffs = {}
@@ -837,7 +843,7 @@ def run(ctx):
                 "10% one-row and 10% one-column grids, full goal rows/columns cutting the grid in two, start cells anywhere (7% of grid "
                 "worlds without any start cell), success / wind probability and coherence in {0,1/4,1/2,3/4,1}, step costs, quarter-valued "
                 "feature rewards, discount rates {1/2..1}; tiger all coherences; load-unload sizes 1..8 (thorough 1..13, 20); the cliff "
-                "walking instance; thorough adds all layouts over . # g s of sizes 1x1..2x3/3x2. distinct = structural hash of the case "
+                "walking instance; thorough adds all layouts over . # g s of sizes 1x1, 1x2, 2x1, 1x3, 3x1, 2x2, 3x2 (w x h). distinct = structural hash of the case "
                 "without discount rate; non-trivial = every case (each has >= 1 state with 2+ outcomes or a wall/goal interaction)",
         "samples": [{"case": cases[0], "impl_state_list": impl[0].get("state_list")}] if cases else [],
         "certificate_checks": nwf, "mirror_comparisons": nmir, "cases_per_domain": counts,
@@ -846,4 +852,5 @@ def run(ctx):
         "gridworld_sizes": sorted({"%dx%d" % (len(c["rows"][0]), len(c["rows"])) for c in gwc}),
         "success_probs": {p: sum(1 for c in gwc if c["success_prob"] == p) for p in QUART},
         "cases": len(cases), "violation_signature_counts": sig_count,
+        "seconds": {"impl": round(t_impl, 1), "coq": round(t_coq, 1)},
     })
